@@ -55,11 +55,18 @@ fn dry_variant(spec: &FxSpec) -> Option<(FxSpec, bool)> {
 /// How much an effect amplifies its own f32 rounding noise internally: the EQ mixes its state
 /// variables with coefficients up to 10^(|gain|/20), a resonant filter has gain 1/k at the
 /// corner. The linearity tolerance is scaled by this factor (1 for everything else).
-fn conditioning(spec: &FxSpec) -> f32 {
+fn conditioning(spec: &FxSpec, n: usize, sr: u32) -> f32 {
 	match spec {
 		FxSpec::Eq { gain_db, .. } => 10f32.powf(gain_db.abs() / 20.0),
 		FxSpec::Filter { resonance, .. } => (1.0 / (2.0 - 1.9 * resonance.clamp(0.0, 1.0))) as f32 + 1.0,
-		FxSpec::Delay { inner, .. } => inner.iter().map(conditioning).fold(1.0, f32::max),
+		FxSpec::Delay { time_s, feedback_db, inner, .. } => {
+			// a feedback loop sums its own rounding errors: 1 / (1 - loop gain) of them, and when the
+			// loop gain is 1 (0 dB feedback is allowed: the line then integrates) one per round trip
+			let g = if *feedback_db <= -60.0 { 0.0 } else { 10f64.powf(*feedback_db as f64 / 20.0) * inner.iter().map(crate::scene::fx::max_gain).product::<f64>() };
+			let trips = (n as f64 / crate::scene::fx::delay_frames(*time_s, sr).max(1) as f64).max(1.0);
+			let loop_c = if g < 1.0 { (1.0 / (1.0 - g)).min(trips) } else { trips };
+			inner.iter().map(|i| conditioning(i, n, sr)).fold(1.0, f32::max) * loop_c as f32
+		}
 		_ => 1.0,
 	}
 }
@@ -96,7 +103,7 @@ impl Property for C13 {
 	fn assumptions(&self) -> Vec<String> {
 		vec![
 			"effects are driven directly through EffectBuilder::build / Effect::{init,on_start_processing,process} with a MockInfoBuilder Info, slices never longer than the internal buffer size (what every track does)".into(),
-			"equality is f32 == (so -0.0 == 0.0); linearity tolerance 1e-4 * max(1, peak of the signals involved) * internal gain of the effect (10^(|EQ gain|/20), 1 + 1/k for a resonant filter); recursive-effect partition tolerance 1e-6 absolute".into(),
+			"equality is f32 == (so -0.0 == 0.0); linearity tolerance 1e-4 * max(1, peak of the signals involved) * internal gain of the effect (10^(|EQ gain|/20), 1 + 1/k for a resonant filter, min(1/(1 - loop gain), round trips) for a delay's feedback loop); recursive-effect partition tolerance 1e-6 absolute".into(),
 			"effects placed inside a delay's feedback loop are restricted to a provable loop gain <= 0.95 (a loop with gain above 1 diverges by design); see counters".into(),
 		]
 	}
@@ -183,7 +190,7 @@ impl Property for C13 {
 			let want: Vec<Frame> = ox.iter().zip(oy.iter()).map(|(p, q)| *p * ka + *q * kb).collect();
 			let scale = peak(&ox).max(peak(&oy)).max(peak(&oc)).max(peak(&comb)).max(1.0);
 			if first_nonfinite(&oc).is_none() && first_nonfinite(&want).is_none() {
-				let tol = 1e-4 * scale * conditioning(&spec);
+				let tol = 1e-4 * scale * conditioning(&spec, n, sr);
 				if let Some((i, a, b)) = first_diff(&oc, &want, tol) {
 					return Err(f("linearity", &spec, format!("frame {i}: f(a*x+b*y) = {a:?} but a*f(x)+b*f(y) = {b:?} (a={ka}, b={kb}, tolerance {tol:e}); {spec:?} sr {sr}")));
 				}
